@@ -1,25 +1,394 @@
+// C15 — simulation rules are applied exactly as written.
+//
+//	(1) print/parse: every rule of the documented grammar (through Add) and every Rule struct of small
+//	    field domains: Add(String(r)) == r, or no printable form for undocumented combinations; JSON save/load.
+//	(2) histories (model checking): BFS over Add/Del/Suspend/Reactivate on the real Simbox against a list model.
+//	(3) semantics: all rule lists up to a length bound x all suspension masks x machines, compiled by the
+//	    real compilers, executed by the real `bondmachine -sim` process (one run per distinct compiled
+//	    form) and by SinglePipelineSimulate, compared tick by tick with a reference model that applies the
+//	    documented meaning to a fresh VM stepped with VM.Step.
 package main
 
 import (
+	"encoding/json"
 	"fmt"
 	"os"
 	"path/filepath"
+	"sort"
+	"strings"
+	"time"
+
+	"verif/lib/vlib"
 )
 
 func main() {
-	dir := os.Args[1]
-	for _, n := range machineNames() {
-		bm, err := buildMachine(n)
+	if len(os.Args) > 1 && os.Args[1] == "-c15worker" {
+		workerMain()
+		return
+	}
+	run := vlib.Start("C15", "model_checking")
+	if run.Replay != "" {
+		doReplay(run)
+		return
+	}
+	start := time.Now()
+	scratch, cleanup := vlib.Scratch("c15")
+	defer cleanup()
+	exitClean := func() { cleanup() }
+
+	// the CLI is built while parts 1 and 2 run
+	binCh := make(chan string, 1)
+	var binErr error
+	go func() {
+		b, err := buildTool(scratch, "bondmachine")
+		binErr = err
+		binCh <- b
+	}()
+
+	// ---- (1) print / parse ----------------------------------------------------------------------
+	phase := map[string]float64{}
+	t0 := time.Now()
+	pp := runPrintParse(run)
+	phase["printparse_s"] = time.Since(t0).Seconds()
+	t0 = time.Now()
+
+	// ---- (2) histories ----------------------------------------------------------------------------
+	depth := 5
+	if run.Thorough() {
+		depth = 7
+	}
+	if v := os.Getenv("C15_DEPTH"); v != "" {
+		fmt.Sscan(v, &depth)
+	}
+	states, transitions, traces, maxDepth, hexh, hcap, hkinds := runHistories(run, depth)
+	phase["histories_s"] = time.Since(t0).Seconds()
+	t0 = time.Now()
+
+	// ---- (3) semantics ----------------------------------------------------------------------------
+	maxLen := 2
+	budget := 80 * time.Second
+	if run.Thorough() {
+		maxLen = 3
+		budget = 15 * time.Minute
+	}
+	if v := os.Getenv("C15_MAXLEN"); v != "" {
+		fmt.Sscan(v, &maxLen)
+	}
+	deadline := start.Add(budget)
+	sem := runSemantics(run, scratch, binCh, &binErr, maxLen, deadline)
+	phase["semantics_s"] = time.Since(t0).Seconds()
+	t0 = time.Now()
+	bin := filepath.Join(scratch, "bondmachine")
+	fm := runFormats(run, scratch, bin)
+	lb := runLibrary(run)
+	phase["formats_library_s"] = time.Since(t0).Seconds()
+	run.Set("phase_seconds", phase)
+
+	run.Set("states", states)
+	run.Set("transitions", transitions)
+	run.Set("traces_validated_against_impl", traces)
+	run.Set("history_depth", maxDepth)
+	run.Set("history_ops_by_kind", hkinds)
+	run.Set("evaluations", pp.evaluations+sem.cases+fm.cases+lb.cases)
+	classes := len(pp.classes) + sem.distinctOutcomes + lb.distinct
+	run.Set("distinct_nontrivial", classes)
+	run.Set("rule", "print/parse: distinct (outcome, rule form) classes over all grammar strings and Rule structs; semantics: distinct observed outcomes (stdout tokens + report file) of the real simulator over all rule lists; library path: distinct returned value vectors")
+	run.Set("printparse_evaluations", pp.evaluations)
+	run.Set("printparse_classes", pp.classes)
+	run.Set("struct_rules_with_unpreserved_inapplicable_field", pp.strict)
+	run.Set("semantics_cases", sem.cases)
+	run.Set("semantics_compiled_form_classes", sem.classes)
+	run.Set("semantics_cli_process_runs", sem.runs+fm.cases)
+	run.Set("semantics_distinct_cli_outcomes", sem.distinctOutcomes)
+	run.Set("semantics_suspended_equals_absent_compile_checks", sem.compileChecks)
+	run.Set("semantics_rule_uses_by_kind", sem.byKind)
+	run.Set("format_cases", fm.cases)
+	run.Set("library_path_cases", lb.cases)
+	run.Set("library_path_distinct_results", lb.distinct)
+	exh := hexh && sem.capHit == ""
+	run.Set("exhaustive", exh)
+	caps := []string{}
+	if hcap != "" {
+		caps = append(caps, "histories:"+hcap)
+	}
+	if sem.capHit != "" {
+		caps = append(caps, "semantics-cli:"+sem.capHit)
+	}
+	run.Set("cap_hit", strings.Join(caps, ","))
+	run.Set("bounds", map[string]any{"history_depth": depth, "history_rules": len(histRules), "rule_alphabet": len(alphabet),
+		"max_rules_per_list": maxLen, "ticks": simTicks, "machines": []string{"pass", "count", "two", "pipe2(library path)"},
+		"modes": "interaction limit; pass also with -sim-stop-on-valid-of 0"})
+	run.Assume("object names are the implementation's mnemonics (i<k>, o<k>, p<k>r<j>, ...); the names used in docs/simbox-rules.md (r0, io_input, memory_0) are not accepted by the simulator and are only used in the print/parse part")
+	run.Assume("a get/show rule of tick t samples the state after the step of tick t; a set rule of tick t is applied before that step")
+	run.Assume("a set on a BM input presents the datum with its valid flag raised; the environment drops it when recv is seen and acknowledges every valid output (both loops do this; it is the test bench, not a rule)")
+	run.Assume("an object selected by several rules at one tick is reported once; columns / shown values follow the order of first appearance in the active rule list; values are compared numerically, not by format")
+	run.Assume("under config:get_all every report column is sampled at every tick")
+	run.Assume("with -sim-stop-on-valid-of the tick at which the stop condition is seen is a sampling-only tick (no step)")
+	run.Assume("fields a rule form has no place for (Tick of onvalid/onrecv/onexit/config, Extra of parameterless config options) are don't-care in the print/parse comparison")
+	run.Assume("the simulation loop is a deterministic function of (machine, compiled rule structures, flags): one process run per distinct compiled form stands for all rule lists compiling to it; compilation itself is executed for every list and mask")
+	run.Assume("Del/Suspend/Reactivate indices are non-negative (cmd/simbox uses -1 as 'not given')")
+	exitClean()
+	run.Finish()
+}
+
+// ---- documented formats ------------------------------------------------------------------------------
+
+type fmtResult struct{ cases int }
+
+// runFormats: every documented format specifier x {get, show} on the counter machine.
+func runFormats(run *vlib.Run, scratch, bin string) fmtResult {
+	var res fmtResult
+	if _, err := os.Stat(bin); err != nil {
+		return res
+	}
+	mi, err := newMachineInfo("count")
+	if err != nil {
+		return res
+	}
+	mj, _ := machineJSON(mi.BM)
+	ts := &traceStore{m: map[string]trace{}}
+	dir := filepath.Join(scratch, "fmt")
+	os.MkdirAll(dir, 0o755)
+	r := &cliRunner{bin: bin, dir: dir, timeout: 60 * time.Second}
+	var fs []string
+	for f := range documentedFormats {
+		fs = append(fs, f)
+	}
+	sort.Strings(fs)
+	for _, f := range fs {
+		for _, act := range []string{"get", "show"} {
+			c := simCase{Machine: "count", Rules: []string{"absolute:3:" + act + ":o0:" + f}, Susp: []bool{false}, Ticks: 6, StopOn: -1}
+			got, _, err := r.run(mj, c)
+			res.cases++
+			if err != nil {
+				run.Report("C15|harness|cli-run", fmt.Sprintf("%s: %v", c, err), simReplay{"cli", c})
+				continue
+			}
+			exp, err := expectedOutcomes(mi, ts, c, hyp{})
+			if err != nil {
+				run.Report("C15|harness|reference-failed", fmt.Sprintf("%s: %v", c, err), simReplay{"cli", c})
+				continue
+			}
+			if matches(exp, got) {
+				continue
+			}
+			class, detail := exp[0].firstDiff(got)
+			run.Report("C15|format-"+f+"|"+class, fmt.Sprintf("[cli loop] %s: %s", c, detail), simReplay{"cli-format", c})
+		}
+	}
+	return res
+}
+
+// ---- library path ---------------------------------------------------------------------------------------
+
+type libRes struct{ cases, distinct int }
+
+func runLibrary(run *vlib.Run) libRes {
+	var res libRes
+	cases := libCases(run.Thorough())
+	infos := map[string]*machineInfo{}
+	ts := &traceStore{m: map[string]trace{}}
+	var qs []traceReq
+	for _, c := range cases {
+		mi, ok := infos[c.Machine]
+		if !ok {
+			var err error
+			if mi, err = newMachineInfo(c.Machine); err != nil {
+				run.Report("C15|harness|machine-build", err.Error(), nil)
+				return res
+			}
+			infos[c.Machine] = mi
+		}
+		if q, err := c.simCase(mi).traceReq(hyp{}); err == nil {
+			qs = append(qs, dedupSets(q))
+		}
+	}
+	if err := ts.fetch(qs); err != nil {
+		run.Report("C15|harness|trace-worker", err.Error(), nil)
+		return res
+	}
+	// the library loop itself, in worker processes (it leaks goroutines)
+	const batch = 40
+	distinct := map[string]bool{}
+	for lo := 0; lo < len(cases); lo += batch {
+		hi := lo + batch
+		if hi > len(cases) {
+			hi = len(cases)
+		}
+		out, err := callWorker(workerJob{Lib: cases[lo:hi]})
+		if err != nil || len(out.Lib) != hi-lo {
+			run.Report("C15|harness|lib-worker", fmt.Sprint(err), nil)
+			return res
+		}
+		for i, r := range out.Lib {
+			c := cases[lo+i]
+			res.cases++
+			b, _ := json.Marshal(r)
+			distinct[string(b)] = true
+			if judgeLib(run, infos[c.Machine], ts, c, r) && i%7 == 0 {
+				run.Sample(map[string]any{"loop": "lib", "case": c.String(), "returned": r.Out})
+			}
+		}
+	}
+	res.distinct = len(distinct)
+	return res
+}
+
+// ---- replay ---------------------------------------------------------------------------------------------
+
+func doReplay(run *vlib.Run) {
+	var raw map[string]json.RawMessage
+	sig, err := vlib.LoadReplay(run.Replay, &raw)
+	if err != nil {
+		fmt.Println("cannot load replay:", err)
+		os.Exit(2)
+	}
+	fmt.Println("replaying", sig)
+	n := 1
+	switch {
+	case raw["ops"] != nil:
+		var rp histReplay
+		vlib.LoadReplay(run.Replay, &rp)
+		replayHistory(run, rp)
+		n = len(rp.Ops)
+	case raw["kind"] != nil:
+		var rp ppReplay
+		vlib.LoadReplay(run.Replay, &rp)
+		replayPrintParse(run, rp)
+	case raw["lib"] != nil:
+		var rp libReplay
+		vlib.LoadReplay(run.Replay, &rp)
+		mi, err := newMachineInfo(rp.Lib.Machine)
 		if err != nil {
 			fmt.Println(err)
-			os.Exit(1)
+			os.Exit(2)
 		}
-		b, _ := machineJSON(bm)
-		os.WriteFile(filepath.Join(dir, n+".json"), b, 0o644)
-		fmt.Println(n, "bonds", bm.List_bonds(), "iin", bm.List_internal_inputs(), "iout", bm.List_internal_outputs())
-		for _, d := range bm.Domains {
-			s, _ := d.Disassembler()
-			fmt.Print(s)
+		out, err := callWorker(workerJob{Lib: []libCase{rp.Lib}})
+		if err != nil {
+			fmt.Println(err)
+			os.Exit(2)
 		}
+		fmt.Printf("%s\n  returned %v err=%q hang=%v\n", rp.Lib, out.Lib[0].Out, out.Lib[0].Err, out.Lib[0].Hang)
+		if judgeLib(run, mi, &traceStore{m: map[string]trace{}}, rp.Lib, out.Lib[0]) {
+			fmt.Println("  agrees with the documented meaning")
+		}
+	case raw["case"] != nil:
+		var rp simReplay
+		vlib.LoadReplay(run.Replay, &rp)
+		replaySim(run, rp)
+	default:
+		fmt.Println("unknown replay format")
+		os.Exit(2)
+	}
+	run.Set("states", n+1)
+	run.Set("transitions", n)
+	run.Set("traces_validated_against_impl", n)
+	run.Set("evaluations", 1)
+	run.Finish()
+}
+
+func replayPrintParse(run *vlib.Run, rp ppReplay) {
+	switch rp.Kind {
+	case "string":
+		sb := newSimbox()
+		err, pan := safeAdd(sb, rp.Text)
+		want, valid := docParse(rp.Text)
+		fmt.Printf("Add(%q): err=%v panic=%v rules=%+v; documented: valid=%v %+v\n", rp.Text, err, pan, sb.Rules, valid, want)
+		if pan != nil || valid != (err == nil) || (valid && (len(sb.Rules) != 1 || sb.Rules[0] != want)) {
+			run.Report("C15|parse|replay-mismatch", "see output", rp)
+		}
+	case "struct":
+		r := *rp.Rule
+		s, _ := safeString(r)
+		c, d := roundTrip(r, true)
+		fmt.Printf("%+v prints as %q; round trip: %s %s; documented form exists: %v\n", r, s, c, d, docValidStruct(r))
+		if docValidStruct(r) && c != "" {
+			run.Report("C15|print|"+c+"|"+ruleClass(r), d, rp)
+		}
+	case "json":
+		sb := newSimbox()
+		json.Unmarshal([]byte(rp.Text), sb)
+		d := jsonRoundTrip(sb)
+		fmt.Printf("save/load of %s: %q\n", rp.Text, d)
+		if d != "" {
+			run.Report("C15|json|save-load-differs", d, rp)
+		}
+	}
+}
+
+func replaySim(run *vlib.Run, rp simReplay) {
+	c := rp.Case
+	mi, err := newMachineInfo(c.Machine)
+	if err != nil {
+		fmt.Println(err)
+		os.Exit(2)
+	}
+	ts := &traceStore{m: map[string]trace{}}
+	fmt.Println(c)
+	if rp.Loop == "compile" {
+		cp, _ := newCompiler(mi)
+		sb, _ := buildSimbox(c.Rules, c.Susp)
+		var ar []string
+		for i, r := range c.Rules {
+			if !c.Susp[i] {
+				ar = append(ar, r)
+			}
+		}
+		asb, _ := buildSimbox(ar, make([]bool, len(ar)))
+		a, b := cp.compile(sb), cp.compile(asb)
+		var am []mrule
+		for _, r := range ar {
+			m, _ := parseRule(r)
+			am = append(am, m)
+		}
+		rd, rr := cp.relations(sb)
+		md, mr := modelRelations(am)
+		fmt.Printf("  SimDrive.Init relations:  {%s}\n  rules as written:         {%s}\n", strings.ReplaceAll(rd, "\n", "; "), strings.ReplaceAll(md, "\n", "; "))
+		fmt.Printf("  SimReport.Init relations: {%s}\n  rules as written:         {%s}\n", strings.ReplaceAll(rr, "\n", "; "), strings.ReplaceAll(mr, "\n", "; "))
+		if rd != md {
+			run.Report("C15|compile|simdrive|relation-differs", "see output", rp)
+		}
+		if rr != mr {
+			run.Report("C15|compile|simreport|relation-differs", "see output", rp)
+		}
+		for p := 0; p < 4; p++ {
+			fmt.Printf("  %s with suspended rules: %s\n  %s without them:         %s\n", compileParts[p], a[p], compileParts[p], b[p])
+			if a[p] != b[p] {
+				run.Report("C15|compile|suspended-rule-compiled|"+compileParts[p], "compiled forms differ", rp)
+			}
+		}
+		return
+	}
+	scratch, cleanup := vlib.Scratch("c15r")
+	defer cleanup()
+	bin, err := buildTool(scratch, "bondmachine")
+	if err != nil {
+		fmt.Println(err)
+		os.Exit(2)
+	}
+	mj, _ := machineJSON(mi.BM)
+	r := &cliRunner{bin: bin, dir: scratch, timeout: 60 * time.Second}
+	got, rawOut, err := r.run(mj, c)
+	if err != nil {
+		fmt.Println("cli:", err)
+		os.Exit(2)
+	}
+	fmt.Printf("--- real `bondmachine -sim` output ---\n%s\n--- normalised ---\n  abort=%q\n  stdout=%v\n  report header=%v rows=%v\n", rawOut, got.Abort, got.Out, got.Header, got.Rows)
+	exp, err := expectedOutcomes(mi, ts, c, hyp{})
+	if err != nil {
+		fmt.Println("reference:", err)
+		os.Exit(2)
+	}
+	fmt.Printf("--- documented meaning ---\n  stdout=%v\n  report header=%v rows=%v\n", exp[0].Out, exp[0].Header, exp[0].Rows)
+	if rp.Loop == "cli-format" {
+		if !matches(exp, got) {
+			class, detail := exp[0].firstDiff(got)
+			f := c.Rules[0][strings.LastIndex(c.Rules[0], ":")+1:]
+			run.Report("C15|format-"+f+"|"+class, detail, rp)
+		}
+		return
+	}
+	if judge(run, "cli", mi, ts, c, got, nil) {
+		fmt.Println("  agrees with the documented meaning")
 	}
 }
